@@ -463,6 +463,8 @@ fn main() {
             "merge-unlabelled-never-matches".into()
         } else if t.starts_with("CREATE") && t.contains("-[:") && t.contains(" + ") {
             "create-rel-prop-expr-dropped".into()
+        } else if t.contains(" SET ") && t.contains("/ 0") {
+            "set-swallowed-eval-error".into()
         } else if t.contains(" DELETE ") && !t.contains("DETACH") {
             "plain-delete-connected".into()
         } else {
